@@ -45,6 +45,15 @@ def run(ctx):
     out.exhaustive = True
     n = 6 if ctx.thorough else 1
     strs = [bytes(rng.randrange(256) for _ in range(rng.randint(0, 60))) for _ in range(300 * n)] + [F.rand_residues(rng, rng.randint(0, 80)) for _ in range(300 * n)]
+    # long inputs (beyond any block / buffer size an implementation might use): involution + spec, real code only
+    for ln in [65536, 65537, 262144, 262145, 300001, 2**20 + 3][: (6 if ctx.thorough else 4)]:
+        blk = F.rand_residues(rng, 997)
+        big = (blk * (ln // len(blk) + 1))[:ln]
+        rc = reverse_complement(big)
+        inp = {"length": ln, "block": blk.decode("latin-1")[:60]}
+        out.case("revcomp-long", inp, ("long", ln))
+        if len(rc) != ln or reverse_complement(rc) != big or rc != F.spec_revcomp(big):
+            out.oracle_fail("revcomp-long", inp, f"reverse complement of a {ln}-byte string is wrong / not an involution")
     ms = ctx.driver.batch([{"id": i, "kind": "revcomp", "bytes": list(s)} for i, s in enumerate(strs)]) if ctx.driver else [None] * len(strs)
     for s, mm in zip(strs, ms):
         rc = reverse_complement(s)
